@@ -154,6 +154,7 @@ type RefStore struct {
 	ttl     time.Duration
 	seq     uint64
 	data    map[string]*storeRec
+	tomb    map[string]*storeRec // delete markers: the subject's last sequence until the marker itself ages out
 	watches []*refWatch
 	opSeq   int
 	wSeq    int
@@ -169,7 +170,7 @@ type RefStore struct {
 }
 
 func newRefStore(tr *Trace, ttl time.Duration) *RefStore {
-	return &RefStore{tr: tr, ttl: ttl, data: map[string]*storeRec{}, opCount: map[int]int{}, cut: map[int]bool{}, dead: map[int]bool{}, opTimeout: 2 * time.Second,
+	return &RefStore{tr: tr, ttl: ttl, data: map[string]*storeRec{}, tomb: map[string]*storeRec{}, opCount: map[int]int{}, cut: map[int]bool{}, dead: map[int]bool{}, opTimeout: 2 * time.Second,
 		done: make(chan struct{}), watchFail: map[int]int{}}
 }
 
@@ -229,6 +230,12 @@ func (s *RefStore) writeLocked(key string, val []byte) uint64 {
 	if old := s.data[key]; old != nil && old.timer != nil {
 		old.timer.Stop()
 	}
+	if t := s.tomb[key]; t != nil {
+		if t.timer != nil {
+			t.timer.Stop()
+		}
+		delete(s.tomb, key)
+	}
 	r := &storeRec{val: append([]byte(nil), val...), rev: rev, lastWrite: time.Now()}
 	if s.ttl > 0 {
 		r.timer = time.AfterFunc(s.ttl, func() {
@@ -251,8 +258,35 @@ func (s *RefStore) deleteLocked(key string) uint64 {
 		old.timer.Stop()
 	}
 	delete(s.data, key)
+	if t := s.tomb[key]; t != nil && t.timer != nil {
+		t.timer.Stop()
+	}
+	rev := s.seq
+	t := &storeRec{rev: rev, lastWrite: time.Now()}
+	if s.ttl > 0 {
+		t.timer = time.AfterFunc(s.ttl, func() {
+			s.mu.Lock()
+			if s.tomb[key] == t {
+				delete(s.tomb, key)
+				s.tr.logf("texpire %s %d", key, rev)
+			}
+			s.mu.Unlock()
+		})
+	}
+	s.tomb[key] = t
 	s.notifyLocked(key, nil, s.seq)
 	return s.seq
+}
+
+// lastSeq is the sequence an Update must present: the live record's revision, else the delete marker's, else 0.
+func (s *RefStore) lastSeq(key string) uint64 {
+	if r := s.data[key]; r != nil {
+		return r.rev
+	}
+	if t := s.tomb[key]; t != nil {
+		return t.rev
+	}
+	return 0
 }
 
 // Client is the per-instance handle (every call is caller-tagged).
@@ -404,12 +438,7 @@ func (c *Client) Update(key string, value []byte, exp uint64, opts ...interface{
 	s.mu.Lock()
 	var rev uint64
 	var err error
-	r := s.live(key)
-	if r == nil || r.rev != exp {
-		cur := uint64(0)
-		if r != nil {
-			cur = r.rev
-		}
+	if cur := s.lastSeq(key); cur != exp {
 		err = wrongSeq(cur)
 		s.tr.logf("apply %d fail wrongseq", o.id)
 	} else {
@@ -614,6 +643,9 @@ func (c *Client) Watch(key string, opts ...interface{}) (leader.Watcher, error) 
 	w := &refWatch{s: s, id: s.wSeq, inst: c.inst, key: key, ch: make(chan leader.Entry), wake: make(chan struct{}, 1), stopCh: make(chan struct{})}
 	if r := s.live(key); r != nil {
 		w.queue = append(w.queue, wItem{rev: r.rev, val: append([]byte(nil), r.val...)})
+	} else if t := s.tomb[key]; t != nil {
+		// the subject's last message is a delete marker: nats.go delivers it as the initial value (empty value)
+		w.queue = append(w.queue, wItem{rev: t.rev})
 	}
 	w.queue = append(w.queue, wItem{isNil: true}) // nats.go's "initial values done" marker
 	s.watches = append(s.watches, w)
